@@ -94,11 +94,11 @@ def gen_function_cases(out, tier, rng):
         for s in SCALES:
             for sg in (1, -1):
                 combos.append((Ns, Nd, sg * s))
-    per = 3 if tier == "quick" else 16
+    per = 2 if tier == "quick" else 12
     for Ns, Nd, s in combos:
         lo, hi = sorted([-Nd * s if s > 0 else Fr(0), Fr(Ns) if s > 0 else Ns - Nd * s])
         ts = {Fr(0), Fr(Ns), -Nd * s, Ns - Nd * s, Fr(Ns) + 1, -Nd * s - 1, Fr(Ns, 2)}
-        picks = rng.sample(sorted(ts), min(len(ts), 2 if tier == "quick" else len(ts)))
+        picks = rng.sample(sorted(ts), min(len(ts), 1 if tier == "quick" else len(ts)))
         for _ in range(per):
             picks.append(G.dyadic(rng, math.floor(lo) - 2, math.ceil(hi) + 2, rng.choice([0, 1, 2, 3])))
         for t in picks:
@@ -384,6 +384,7 @@ class Recorder:
 
 
 NL_PAIRS = [
+    ("EPSG:32633", (1 / 16, 0, 500000.0, 0, -1 / 16, 6000000.0), "EPSG:32634", (1 / 16, 0, 100000.0, 0, -1 / 16, 6000000.0)),
     ("EPSG:4326", (-1 / 64, 0, 140.0, 0, 1 / 64, -30.0), "EPSG:3857", (2048.0, 0, 15500000.0, 0, -2048.0, -3400000.0)),
     ("EPSG:32633", (32.0, 0, 499968.0, 0, -32.0, 6000000.0), "EPSG:4326", (1 / 2048, 0, 14.9, 0, -1 / 2048, 54.2)),
     ("EPSG:3577", (64.0, 0, 1500000.0, 0, -64.0, -3900000.0), "EPSG:32755", (50.0, 0, 600000.0, 0, -50.0, 6100000.0)),
@@ -728,8 +729,33 @@ def replay(rp) -> int:
 
 
 META = {
-    "text": "placeholder",
-    "note": "placeholder",
+    "text": ("Coq theorems (coq/Props/C03.v, 17 statements, all closed under the global context) over a Gallina model of "
+             "odc/geo/overlap.py: compute_axis_overlap for ALL image sizes and ALL rational scales s != 0 (mirrored, fractional) "
+             "and shifts: both slices inside their images, every destination pixel whose centre maps inside the source is in the "
+             "destination slice and its source pixel floor(s(d+1/2)+t) in the source slice, non-overlapping images give empty "
+             "slices; compute_reproject_roi same CRS: sampled path for every invertible affine (rotation, shear, any scale, every "
+             "padding/align) - inclusion, padding honoured, regions inside the images, separated by the margin -> empty; paste path "
+             "- inclusion for every true location within half an overview pixel of the snapped transform (in particular the true "
+             "transform when its scale is exactly +-k), regions inside the images up to the next multiple of read_shrink, "
+             "disjoint -> empty; scale = min of the per-axis ratios (sx^2 = a^2+d^2, sx*sy = |det|), read_shrink a positive "
+             "integer, 1 below scale 1, else within (scale-1, scale+tol); different CRS: the same inclusion conditional on the "
+             "explicit hypothesis H_boundary_encloses, bounds / separated -> empty / scale relations unconditional.  The model is "
+             "tied to the code by an exact correspondence run (about 10k cases, vm_compute inside Coq, rationals compared with "
+             "Qeq_bool) and by a brute-force inclusion search over destination pixels in exact Fraction arithmetic."),
+    "note": ("Trusted: Coq kernel; the hand-written model coq/Model/Overlap.v (+ roi_from_points of Model/Roi.v) validated by the "
+             "correspondence; exact-rational abstraction of binary64 (correspondence restricted to inputs on which every float "
+             "operation of the path is exact: dyadic few-bit affines, power-of-two or robustly non-integral divisions; cases "
+             "outside are dropped and counted as generator-escape; sqrt(x*x)=|x| in binary64 is assumed); sizes and offsets are "
+             "assumed below 2^53 (float64 pixel coordinates).  Oracles: for different CRSs the PROJ point transform (tr, tr.back) "
+             "and get_scale_at_point are Section variables; the correspondence replays the implementation's own transformed points "
+             "as a table, so only the glue is compared.  Not proved: H_boundary_encloses (the padded envelope of the 5-per-side "
+             "sampled boundary contains the image of the interior) - tested numerically on every run, observed slack reported in "
+             "the evidence notes; irrational scales (rotations that are not Pythagorean) are outside the executable model (the "
+             "theorems state sx^2 = a^2+d^2 for whichever root the model is given).  Domain corrections (not findings): on the "
+             "paste path inclusion is stated for true locations within half a pixel of the snapped transform, because a tolerated "
+             "scale deviation accumulates over the image; with align the 'separated -> empty' margin above the image is padding + "
+             "align - 1.  The model follows the code after three repairs: _can_paste '>= stol', align=0 treated as None, "
+             "roi_boundary in float64 (witnesses in corpus/C03, corpus/C10)."),
     "technique": "Coq proof over hand-written Gallina model + exact differential correspondence (vm_compute) + exact brute-force search",
     "design_ref": "DESIGN.md section 5, C03",
 }
